@@ -101,7 +101,7 @@ type Scenario struct {
 
 	LatencyUs []int `json:"latency_us"` // latency of attempt i = LatencyUs[i % len] (simulated)
 
-	CallerDeadlineMs int `json:"caller_deadline_ms"` // 0: none; else the caller's context has this deadline
+	CallerDeadlineMs int `json:"caller_deadline_ms"`  // 0: none; else the caller's context has this deadline
 	CallerCancelAtUs int `json:"caller_cancel_at_us"` // -1: never; else the caller cancels at this instant
 
 	Validate string `json:"validate"` // "noop" (library's no-op validator) | "accept" | "reject"
@@ -202,7 +202,12 @@ func enumConfigs() []Scenario {
 			sc.TimeoutMs = 1000
 		}),
 		/* 16 */ mk(func(sc *Scenario) { sc.Validate = "reject"; sc.ReadMode = ModeMixed }),
-		/* 17 */ mk(func(sc *Scenario) { sc.Validate = "reject"; sc.API = "async"; sc.ReadMode = ModeStale; sc.Warmup = true }),
+		/* 17 */ mk(func(sc *Scenario) {
+			sc.Validate = "reject"
+			sc.API = "async"
+			sc.ReadMode = ModeStale
+			sc.Warmup = true
+		}),
 	}
 }
 
@@ -393,7 +398,11 @@ func shrink(sc *Scenario) []any {
 		}
 		return false
 	})
-	add(func(c *Scenario) bool { ok := len(c.Liveness) > 0; c.Liveness, c.DownOverride, c.RecoverAtMs = nil, false, 0; return ok })
+	add(func(c *Scenario) bool {
+		ok := len(c.Liveness) > 0
+		c.Liveness, c.DownOverride, c.RecoverAtMs = nil, false, 0
+		return ok
+	})
 	add(func(c *Scenario) bool { ok := len(c.Slow) > 0; c.Slow = nil; return ok })
 	add(func(c *Scenario) bool { ok := c.LabelStore != -1; c.LabelStore = -1; return ok })
 	add(func(c *Scenario) bool { ok := len(c.MatchStores) > 0; c.MatchStores = nil; return ok })
@@ -404,7 +413,11 @@ func shrink(sc *Scenario) []any {
 	add(func(c *Scenario) bool { ok := c.CallerCancelAtUs >= 0; c.CallerCancelAtUs = -1; return ok })
 	add(func(c *Scenario) bool { ok := c.BusyThresholdMs != 0; c.BusyThresholdMs = 0; return ok })
 	add(func(c *Scenario) bool { ok := c.RequestSource != ""; c.RequestSource = ""; return ok })
-	add(func(c *Scenario) bool { ok := c.Validate != "noop" && c.Validate != "reject"; c.Validate = "noop"; return ok })
+	add(func(c *Scenario) bool {
+		ok := c.Validate != "noop" && c.Validate != "reject"
+		c.Validate = "noop"
+		return ok
+	})
 	add(func(c *Scenario) bool { ok := c.LeaderIdx != 0; c.LeaderIdx = 0; return ok })
 	add(func(c *Scenario) bool { ok := c.Warmup; c.Warmup = false; return ok })
 	add(func(c *Scenario) bool { ok := c.API != "sync"; c.API = "sync"; return ok })
